@@ -107,6 +107,8 @@ func newInterp(files ...*ast.File) *interp {
 		"types.NewXErrorf":          newXErrorf,
 		"types.NewXNumber":          newXNumber,
 		"types.XNumberZero":         newXNumber(decimal.Zero),
+		"fmt.Sprintf":               fmt.Sprintf,
+		"fmt.Sprint":                fmt.Sprint,
 		"big.NewInt":                big.NewInt,
 		"decimal.New":               decimal.New,
 		"decimal.NewFromInt":        decimal.NewFromInt,
